@@ -172,5 +172,79 @@ theorem simAll (hp : ProgRel P P') : ∀ n, SimAt P P' n
       arms := fun h2 h3 hρ hw hv hg => sim_arms_succ ih h2 h3 hρ hw hv hg
       app := fun hf ha hw hg => sim_app_succ hp ih hf ha hw hg }
 
+/-! ### whole programs -/
+
+theorem findFn_some_inv {P : Prog} {g : String} {f : Fn} (h : P.findFn g = some f) : f ∈ P.fns ∧ f.name = g := by
+  unfold Prog.findFn at h
+  exact ⟨List.mem_of_find?_eq_some h, by simpa using List.find?_some h⟩
+
+theorem progRel_of_progOk (h : progOk P P' = true) : ProgRel P P' ∧ globalOk P P' "main" = true := by
+  unfold progOk at h
+  simp only [Bool.and_eq_true, List.all_eq_true, decide_eq_true_eq] at h
+  obtain ⟨⟨⟨h1, h2⟩, h3⟩, h4⟩ := h
+  refine ⟨⟨?_, h2, h3⟩, h4⟩
+  intro g f hf
+  obtain ⟨hmem, hname⟩ := findFn_some_inv hf
+  have := h1 f hmem
+  rw [hname, hf] at this
+  split at this
+  · rename_i f0 f' h0 h0'
+    simp only [Option.some.injEq] at h0
+    subst h0
+    exact ⟨f', h0', this⟩
+  · cases this
+
+theorem WRel.init (eager : Bool) : WRel P P' { eager := eager } { eager := eager } :=
+  ⟨rfl, .nil, .nil, rfl, rfl⟩
+
+def outcomeOf : Res Val → Outcome
+  | .ok _ w => { out := w.out, status := "ok", externs := w.externs }
+  | .fail f w => { out := w.out, status := failStr f, externs := w.externs }
+
+theorem run_eq (fuel : Nat) (Q : Prog) (entry : String) (eager : Bool) :
+    run fuel Q entry eager = outcomeOf (apply fuel Q { eager := eager } (.fn entry) []) := by
+  unfold run
+  cases apply fuel Q { eager := eager } (.fn entry) [] <;> rfl
+
+/-- the observable outcome of related results is the same -/
+theorem outcome_eq {s : Shape} {r r' : Res Val} (h : ResRel P P' s r r') : outcomeOf r = outcomeOf r' := by
+  cases r <;> cases r' <;> simp only [ResRel] at h
+  · simp [outcomeOf, h.2.2.out, h.2.2.externs]
+  · simp [outcomeOf, h.1, h.2.out, h.2.externs]
+
+theorem good_of_status {r : Res Val}
+    (h : (outcomeOf r).status = "ok" ∨ ∃ k, (outcomeOf r).status = "panic:" ++ k) : Good r := by
+  cases r with
+  | ok v w => trivial
+  | fail f w =>
+    cases f with
+    | panic k => trivial
+    | fuel =>
+      exfalso
+      rcases h with h | ⟨k, h⟩
+      · simp [outcomeOf, failStr] at h
+      · have := congrArg String.toList h
+        simp [outcomeOf, failStr, String.toList_append] at this
+    | stuck m =>
+      exfalso
+      rcases h with h | ⟨k, h⟩
+      · have := congrArg String.toList h
+        simp [outcomeOf, failStr, String.toList_append] at this
+      · have := congrArg String.toList h
+        simp [outcomeOf, failStr, String.toList_append] at this
+
+/-- an accepted pair of programs: whenever the source run ends normally or panics, the lifted
+    program produces the same observable outcome for every sufficiently large fuel -/
+theorem run_sim (h : progOk P P' = true) (fuel : Nat) (eager : Bool)
+    (hgood : (run fuel P "main" eager).status = "ok" ∨ ∃ k, (run fuel P "main" eager).status = "panic:" ++ k) :
+    ∃ fuel', ∀ m, fuel' ≤ m → run m P' "main" eager = run fuel P "main" eager := by
+  obtain ⟨hp, hmain⟩ := progRel_of_progOk h
+  rw [run_eq] at hgood
+  have hg : Good (apply fuel P { eager := eager } (.fn "main") []) := good_of_status hgood
+  obtain ⟨r', ⟨k, hk⟩, hr⟩ := (simAll hp fuel).app (VRel.fn_of_globalOk hmain) .nil (WRel.init eager) hg
+  refine ⟨k, fun m hm => ?_⟩
+  rw [run_eq, run_eq, hk m hm]
+  exact (outcome_eq hr).symm
+
 end
 end Goml.Lift
